@@ -188,9 +188,18 @@ fn probe_chunk_counter_overflow_no_panic() {
 }
 
 fn pfailsafe_read_all(stream: &[u8], mode: FailSafeReaderDecryptionMode) -> Vec<u8> {
+    // several read sizes: smaller than a chunk, exactly a chunk and its tag, and the 8 MiB of the repair loop -- all must agree
+    let first = pfailsafe_read_all_with(stream, mode, 70000);
+    for bufsz in [131072usize, 131088, 131089, 8 * 1024 * 1024] {
+        let other = pfailsafe_read_all_with(stream, mode, bufsz);
+        assert!(other == first, "fail-safe read with {bufsz}-byte buffers returned {} bytes, with 70000-byte buffers {} bytes", other.len(), first.len());
+    }
+    first
+}
+fn pfailsafe_read_all_with(stream: &[u8], mode: FailSafeReaderDecryptionMode, bufsz: usize) -> Vec<u8> {
     let mut out = Vec::new();
     if let Ok(mut r) = EncryptionLayerFailSafeReader::new(Box::new(RawLayerFailSafeReader::new(stream)), &pcfg(mode)) {
-        let mut b = vec![0u8; 70000];
+        let mut b = vec![0u8; bufsz];
         loop {
             match r.read(&mut b) {
                 Ok(0) => {
